@@ -8,7 +8,8 @@
    exp/log/pow; [oq_equiv] — both undefined or both defined with Qeq values; [fi_proper fi] — fi respects
    Qeq; [exp_zero_one fi] — exp 0 = 1; [pow_base_one fi] — 1 ^ y = 1 for every y. *)
 From Coq Require Import Reals QArith List Bool PArith Arith.
-From PV Require Import Base.PyData Base.Expr Base.Interp Base.Stmts C09.Model C09.Proofs C09.ProofsExec C09.ProofsSurgery C09.ProofsExt C09.ProofsR.
+From PV Require Import Base.PyData Base.Expr Base.Interp Base.Stmts C09.Model C09.Proofs C09.ProofsExec C09.ProofsSurgery C09.ProofsExt C09.ProofsExt2 C09.ProofsR.
+Import ListNotations.
 Local Open Scope Q_scope.
 
 (* effect_neutral — every documented covariate-effect function (linear, piecewise linear, exponential,
@@ -300,6 +301,88 @@ Theorem transit_rates_after_update :
     let '(rates', d') := rates_after_update rates d in
     forall rt', In rt' rates' -> rate_value d' rt' = Some (NInt (inject_Z (Z.of_nat (length rates))), Sym s_mdt).
 Proof. exact rates_after_update_lemma. Qed.
+
+(* ---- error-model setters at program level -------------------------------------------------------------- *)
+(* error_model_program_sound — for EVERY statement list in which Y is assigned exactly once (Y = ye at position i),
+   every template record equal to the documented one, every interpretation, ODE oracle and environment: after the hand
+   model of the setter (the same functions the correspondence compares with the implementation, tag 3), the final
+   value of Y is the DOCUMENTED error-model expression read in the environment [tenv]: x and f are the OLD PREDICTION
+   F = (value of ye with every old epsilon := 0 at Y's position), each epsilon / eta placeholder is the model symbol
+   it was instantiated with; with zero protection IPREDADJ is the documented guard of F ([tenv_zp]).  Together with
+   error_model_shape: Y_after = pred(F) + eps * coeff(F). *)
+Theorem error_model_program_sound :
+  forall (fi : finterp) (ode : id -> list (option Q) -> option Q) (T : templates) (l : list stmt) (y : id) (i : nat)
+         (ye : expr) (epsilons : list id) (r : env),
+    fi_proper fi -> templates_equiv T doc_templates -> single_assignment l y i ye ->
+    let ri := exec fi ode r (firstn i l) in
+    let F := eval ri fi (zero_eps epsilons ye) in
+    (forall l' eps_a, set_additive T y eps_a epsilons l = Some l' ->
+       oq_equiv (exec fi ode r l' y) (eval (tenv F ri [(s_eps_a, eps_a)]) fi doc_add_error)) /\
+    (forall l' dt eps_p ipredadj, eps_p <> s_x -> ipredadj <> s_x ->
+       set_proportional T dt false y eps_p ipredadj epsilons l = Some l' ->
+       oq_equiv (exec fi ode r l' y) (eval (tenv F ri [(s_eps_p, eps_p)]) fi (doc_prop_error dt false))) /\
+    (forall l' k eps_p eps_a eta_ruv, eps_p <> s_x -> eps_a <> s_x -> eta_ruv <> s_x ->
+       set_combined T k y eps_p eps_a eta_ruv epsilons l = Some l' ->
+       oq_equiv (exec fi ode r l' y)
+                (eval (tenv F ri [(s_eps_p, eps_p); (s_eps_a, eps_a); (s_eta_ruv, eta_ruv)]) fi (doc_comb_error k))).
+Proof.
+  intros fi ode T l y i ye epsilons r Hp HT HS ri F. repeat split.
+  - intros l' eps_a H. apply (set_additive_program_sound_lemma fi Hp ode T l l' y i ye eps_a epsilons r HT HS H).
+  - intros l' dt eps_p ipa H1 H2 H.
+    apply (set_proportional_program_sound_lemma fi Hp ode T dt l l' y i ye eps_p ipa epsilons r HT HS H1 H2 H).
+  - intros l' k e1 e2 e3 H1 H2 H3 H.
+    apply (set_combined_program_sound_lemma fi Hp ode T k l l' y i ye e1 e2 e3 epsilons r HT HS H1 H2 H3 H).
+Qed.
+
+(* ... with zero protection: the guard statement IPREDADJ = {2.225e-16 for f = 0; f otherwise} is placed in front of
+   the first statement mentioning IPREDADJ (hypothesis, executable: that is the new Y statement, as for a fresh IPREDADJ). *)
+Theorem error_model_program_sound_zero_protection :
+  forall (fi : finterp) (ode : id -> list (option Q) -> option Q) (T : templates) (dt : dtrans) (l l' : list stmt)
+         (y : id) (i : nat) (ye : expr) (eps_p ipredadj : id) (epsilons : list id) (r : env),
+    fi_proper fi -> templates_equiv T doc_templates -> single_assignment l y i ye ->
+    eps_p <> s_x -> ipredadj <> s_x -> eps_p <> ipredadj -> ipredadj <> y ->
+    ~ In ipredadj (free_syms (zero_eps epsilons ye)) ->
+    find_first_from (mentions_stmt ipredadj)
+      (firstn i l ++ Assign y (prop_y_expr T dt eps_p ipredadj (zero_eps epsilons ye)) :: skipn (S i) l) 0 = Some i ->
+    set_proportional T dt true y eps_p ipredadj epsilons l = Some l' ->
+    let ri := exec fi ode r (firstn i l) in
+    let F := eval ri fi (zero_eps epsilons ye) in
+    oq_equiv (exec fi ode r l' y) (eval (tenv_zp fi F ri eps_p) fi (doc_prop_error dt true)).
+Proof. intros; eapply set_proportional_zp_program_sound_lemma; eauto. Qed.
+
+(* set_iiv_on_ruv_program_sound — one epsilon: the new model in r IS the old model with eps := eps * exp(eta), for every
+   program that does not assign eps (nor the symbols of the substituted expression), every symbol x <> eps. *)
+Theorem set_iiv_on_ruv_program_sound :
+  forall (fi : finterp) (ode : id -> list (option Q) -> option Q) (T : templates) (eps eta : id) (l : list stmt)
+         (r : env) (x : id),
+    fi_proper fi -> ode_proper ode -> templates_equiv T doc_templates ->
+    ~ In eps (flat_map defs l) -> ~ In eps (ode_rhs l) ->
+    (forall y, In y (free_syms (iiv_on_ruv_expr T eps eta)) -> ~ In y (flat_map defs l)) -> x <> eps ->
+    oq_equiv (exec fi ode r (set_iiv_on_ruv T [(eps, eta)] l) x)
+             (exec fi ode (upd r eps (eval r fi (Mul (Sym eps) (Fn1 F_EXP (Sym eta))))) l x).
+Proof. intros; apply set_iiv_on_ruv_program_sound_lemma; assumption. Qed.
+
+(* ---- the distributions add_iov declares ------------------------------------------------------------------- *)
+(* iov_distributions_exact — for every naming of etas and omegas, group of eta positions and number K of occasion
+   levels: exactly K distributions are declared, the k-th declares exactly eta_name(i, k) for the i of the group, and
+   all K have the SAME covariance symbols (same structure across occasions); the matrix is symmetric with
+   omega_iov_name(i, i) on the diagonal. *)
+Theorem iov_distributions_exact :
+  forall (ename oname : nat -> nat -> id) (indices : list nat) (K : nat),
+    length (iov_dists_group ename oname indices K) = K /\
+    (forall k, (k < K)%nat ->
+       rd_names (nth k (iov_dists_group ename oname indices K) {| rd_names := nil; rd_sigma := nil |})
+       = map (fun i => ename i (S k)) indices) /\
+    (forall d d', In d (iov_dists_group ename oname indices K) -> In d' (iov_dists_group ename oname indices K) ->
+       rd_sigma d = rd_sigma d') /\
+    (forall i j, oname (Nat.min i j) (Nat.max i j) = oname (Nat.min j i) (Nat.max j i)) /\
+    (forall i, oname (Nat.min i i) (Nat.max i i) = oname i i).
+Proof.
+  intros. destruct (iov_dists_exact_lemma ename oname indices K) as [A B]. repeat split; auto.
+  - apply iov_dists_same_structure_lemma.
+  - apply iov_sigma_symmetric_lemma.
+  - apply iov_sigma_diagonal_lemma.
+Qed.
 
 (* ---- over the real numbers (Coq.Reals: exp, ln, Rpower) -------------------------------------------- *)
 (* effect_neutral_real / iiv_neutral_real — the same neutrality statements with the REAL exponential, logarithm
